@@ -119,6 +119,25 @@ Fixpoint alter (pos : nat) (x : N) (bs : list N) : list N :=
   | b :: r, S p => b :: alter p x r
   end.
 
+(* ------------------------------------------------------------------ 2a. scalar chunks (fr.go, ParseProofG1) *)
+(* a response is 32 bytes, read big-endian by curve.NewZrFromBytes WITHOUT reduction or range check; arithmetic is modulo
+   the group order.  Since fix 6fcc1d0 ParseProofG1 rejects a chunk whose value is not below the group order (AsIs: any
+   32 bytes were taken, so chunk and chunk + order were two encodings of one scalar). *)
+Definition be_value (bs : list N) : N := fold_left (fun a b => a * 256 + b)%N bs 0%N.
+Fixpoint be_bytes (k : nat) (v : N) : list N :=
+  match k with O => [] | S k' => be_bytes k' (v / 256)%N ++ [(v mod 256)%N] end.
+Definition group_order : N := 52435875175126190479447740508185965837690552500527637822603658699938581184513.
+Definition fr_canonical (chunk : list N) : bool := (be_value chunk <? group_order)%N.
+Definition fr_value (chunk : list N) : N := (be_value chunk mod group_order)%N.
+Definition responses_canonical (v : variant) (p : pg1) : bool :=
+  match v with AsIs => true | Fixed => forallb fr_canonical (g_resp p) end.
+Definition layout_canonical (v : variant) (l : layout) : bool :=
+  responses_canonical v (l_vc1 l) && responses_canonical v (l_vc2 l).
+(* the 32 bytes at pos replaced by the encoding of their value + the group order (when that fits into 32 bytes) *)
+Definition addq_at (pos : nat) (bs : list N) : list N :=
+  let v := (be_value (firstn 32 (skipn pos bs)) + group_order)%N in
+  if (v <? 2 ^ 256)%N && (pos + 32 <=? length bs) then firstn pos bs ++ be_bytes 32 v ++ skipn (pos + 32) bs else bs.
+
 (* ------------------------------------------------------------------ 2b. the Tink wrapper (bbs_verifier_factory.go) *)
 (* A keyset with ONE key of the given output prefix type.  wrappedVerifier.VerifyProof / Verify: the first 5 bytes
    select the non-raw keys with that prefix, which verify the rest; then the raw keys verify the whole input; if
